@@ -1,8 +1,10 @@
 pub mod c01;
+pub mod c03;
 pub mod c05;
 pub mod c06;
 pub mod c07;
 pub mod c08;
+pub mod c10;
 
 use crate::runner::{CheckMeta, ShardFn};
 
@@ -13,7 +15,7 @@ pub struct CheckDef {
 }
 
 pub fn all() -> Vec<CheckDef> {
-    vec![c01::def(), c05::def(), c06::def(), c07::def(), c08::def()]
+    vec![c01::def(), c03::def(), c05::def(), c06::def(), c07::def(), c08::def(), c10::def()]
 }
 
 pub fn find(id: &str) -> Option<CheckDef> {
@@ -24,6 +26,8 @@ pub fn find(id: &str) -> Option<CheckDef> {
 pub fn replay_other(kind: &str, fr: &crate::runner::FailRec, dir: &std::path::Path) -> Option<crate::interp::Failure> {
     match kind {
         "c08" => c08::replay(fr, dir),
+        "c03" => c03::replay(fr, dir),
+        "c10" => c10::replay(fr, dir),
         _ => Some(crate::interp::Failure::new("harness_panic", format!("unknown case kind {}", kind))),
     }
 }
